@@ -421,6 +421,7 @@ def _blocks(fn):
 
 
 def run(ctx):
+    ctx.rule('R02.9', 'fields read from a diff entry exist for every op that the surrounding op tests still allow (field table from the op_* constructors)', floor=8)
     ctx.rule('R02.8', 'name binding: every global name a function refers to is bound at module level or builtin, and every local is assigned on every path before it is read', floor=6)
     ctx.rule('R02.7', 'every exactly resolved call binds against its callee\'s signature (no missing/unknown/surplus argument on any arm)', floor=4)
     _run_base(ctx)
@@ -428,3 +429,5 @@ def run(ctx):
     call_compat(ctx, 'R02.7', ['nbdime.diffing.generic', 'nbdime.diffing.seq', 'nbdime.diffing.sequences', 'nbdime.diffing.snakes', 'nbdime.diffing.lcs', 'nbdime.patching', 'nbdime.diff_utils', 'nbdime.diff_format'], 'the generic diff/patch aborts for the documents that reach this arm')
     from ..names import name_binding
     name_binding(ctx, 'R02.8', ['nbdime.diffing.generic', 'nbdime.diffing.seq', 'nbdime.diffing.sequences', 'nbdime.diffing.snakes', 'nbdime.diffing.lcs', 'nbdime.patching', 'nbdime.diff_utils', 'nbdime.diff_format'])
+    from ..opfields import check_op_fields
+    check_op_fields(ctx, 'R02.9', ['nbdime.diffing.generic', 'nbdime.diffing.seq', 'nbdime.diffing.sequences', 'nbdime.diffing.snakes', 'nbdime.diffing.lcs', 'nbdime.patching', 'nbdime.diff_utils', 'nbdime.diff_format'])
